@@ -37,6 +37,13 @@ CUSTOM = {
     'P_plain': ({'x-g': r'a|b'}, None),
     'P_macro2': ({'x-h': r'{myint}px'}, {'myint': r'[0-9]'}),
 }
+# other definitions under the same names (for replacement)
+ALT = {
+    'P_new': ({'x-a': r'{myint}|auto', 'x-b': r'foo|bar'}, {'myint': r'[a-c]+'}),
+    'P_color': ({'x-e': r'{color}'}, {'color': r'rrr'}),
+    'P_macro2': ({'x-h': r'{myint}px'}, {'myint': r'[0-9][0-9]'}),
+    'P_plain': ({'x-g': r'c|d'}, None),
+}
 BUILTIN_READD = [Profiles.CSS_LEVEL_2, Profiles.CSS3_COLOR, Profiles.CSS3_BOX]
 BATTERY = [('color', 'red'), ('color', 'foo'), ('color', 'qqq'), ('color', 'rgba(1,2,3,0.5)'), ('color', 'RED'),
            ('margin-top', '1px'), ('margin-top', 'zzz'), ('margin-top', 'auto'), ('z-index', '1'), ('z-index', 'yyy'),
@@ -44,7 +51,7 @@ BATTERY = [('color', 'red'), ('color', 'foo'), ('color', 'qqq'), ('color', 'rgba
            ('x-a', '5'), ('x-b', 'foo'), ('x-c', '1px'), ('x-c', 'zzz'), ('x-d', 'zzz'), ('x-d', 'yyy'), ('x-d', '1px'),
            ('x-d', '7'), ('x-e', 'qqq'), ('x-e', 'red'), ('x-f', 'www'), ('x-f', 'small'), ('x-g', 'a'), ('x-h', '5px'),
            ('x-h', '55px'), ('overflow', 'hidden scroll'), ('overflow', 'hidden'), ('unknown-prop', 'x'),
-           ('background-color', 'qqq')]
+           ('background-color', 'qqq'), ('x-a', 'abc'), ('x-e', 'rrr'), ('color', 'rrr'), ('x-h', '55px'), ('x-g', 'c')]
 
 _MACRO = re.compile(r'{(?P<macro>[a-z][a-z0-9-]*)}')
 _CACHE = {}
@@ -188,16 +195,20 @@ def check(case, ctx):
                 if sp != props or (sm or {}) != (mac or {}):
                     raise Violation('add:callers-definition-modified', f'{step}: {o[1]} properties are now {sp!r}')
             elif kind == 'addmany':
-                names = [n for n in o[1] if n not in model.names()]
-                if not names:
-                    continue
+                names = list(o[1])
+                # a name that is registered already is replaced - by ANOTHER definition of that profile (other macro values)
+                defs = {n: (ALT.get(n, CUSTOM[n]) if n in model.names() else CUSTOM[n]) for n in names}
+                if any(n in model.names() for n in names):
+                    ctx.event('addProfiles:replaces-a-registered-profile')
                 env = set(model.env())
-                if any(CUSTOM[n][1] and set(CUSTOM[n][1]) & env for n in names):
+                if any(defs[n][1] and set(defs[n][1]) & env for n in names):
                     overlap_added = True
                 with lib('addProfiles'):
-                    reg.addProfiles([(n, dict(CUSTOM[n][0]), dict(CUSTOM[n][1]) if CUSTOM[n][1] else None) for n in names])
+                    reg.addProfiles([(n, dict(defs[n][0]), dict(defs[n][1]) if defs[n][1] else None) for n in names])
                 for n in names:
-                    model.profiles.append((n, dict(CUSTOM[n][0]), dict(CUSTOM[n][1] or {})))
+                    model.profiles = [x for x in model.profiles if x[0] != n]
+                for n in names:
+                    model.profiles.append((n, dict(defs[n][0]), dict(defs[n][1] or {})))
             elif kind == 'readd':
                 n = BUILTIN_READD[o[1]]
                 if n in model.names():
@@ -273,3 +284,8 @@ def check(case, ctx):
 SUBS = [
     Sub('registry', check, strategy=strategy, quick=6000, thorough=120000, shards_quick=8, budget_quick=100),
 ]
+
+
+from vlib.reported import reported_sub  # noqa: E402
+
+SUBS.append(reported_sub('C14'))
